@@ -8,11 +8,14 @@
 //
 //	cfg      st=X|M;life=<s>;keep=all|a|m|am;split=0|1;t0=<unix s at case start>
 //	         st: X = injected storage + injected locker (yield points, faults), M = the built-in ones
-//	         keep: KeepResponseHeaders nil / [X-A] / [X-M, Set-Cookie] / [x-a, X-M, X-C, Set-Cookie]
+//	         keep: KeepResponseHeaders nil / [X-A] / [X-M, Set-Cookie] / [x-a, X-M, X-C, Set-Cookie] / e = empty
+//	         non-nil list (configDefault turns it into nil = keep all)
+//	         st=M with life=1800 and keep=all is idempotency.New() without any Config (ConfigDefault path)
 //	threads  method:key:status:body:hdrs:err , ...
-//	         method G|P|D (GET, POST, DELETE); key - (no header) | ! (invalid length) | one letter
+//	         method G|H|O|T (safe: GET, HEAD, OPTIONS, TRACE) | P|D|U|A (POST, DELETE, PUT, PATCH); key - (no header) | ! (too short) | ? (too long) | one letter
 //	         body 0|1 (empty / "body<t>"); hdrs 0..4 (response header preset); err 1 = handler returns an error
-//	actions  s<t> | r<t> | f<t> (release and make the pending call fail) | t<d> , ...
+//	actions  s<t> | r<t> | f<t> (release and make the pending Get/Lock/Set/Unlock call fail; a failing Unlock
+//	         does not release the lock) | c<t> (release a pending Get and return bytes that do not unmarshal) | t<d> , ...
 //	obs      <pos after action 1>,...|<result thread 0>,...
 //	         pos: - unstarted, G/S parked at Storage.Get/Set, L/U parked at Locker.Lock/Unlock, H parked
 //	              in the handler, B blocked inside MemoryLock, D done, P panicked
@@ -82,7 +85,7 @@ func parseCfg(s string) (c cfgIn, ok bool) {
 		return c, false
 	}
 	switch c.keep {
-	case "all", "a", "m", "am":
+	case "all", "a", "m", "am", "e":
 	default:
 		return c, false
 	}
@@ -107,7 +110,7 @@ func parseThreads(s string) ([]thrIn, bool) {
 	var out []thrIn
 	for _, p := range strings.Split(s, ",") {
 		f := strings.Split(p, ":")
-		if len(f) != 6 || len(f[0]) != 1 || len(f[1]) != 1 || !strings.Contains("GPD", f[0]) {
+		if len(f) != 6 || len(f[0]) != 1 || len(f[1]) != 1 || !strings.Contains("GHOTPDUA", f[0]) {
 			return nil, false
 		}
 		st, e1 := strconv.Atoi(f[2])
@@ -117,7 +120,7 @@ func parseThreads(s string) ([]thrIn, bool) {
 			return nil, false
 		}
 		k := f[1]
-		if !(k == "-" || k == "!" || (k[0] >= 'a' && k[0] <= 'z')) {
+		if !(k == "-" || k == "!" || k == "?" || (k[0] >= 'a' && k[0] <= 'z') || (k[0] >= 'A' && k[0] <= 'Z')) {
 			return nil, false
 		}
 		out = append(out, thrIn{f[0], k, st, b, h, f[5] == "1"})
@@ -125,7 +128,7 @@ func parseThreads(s string) ([]thrIn, bool) {
 	return out, true
 }
 
-var methods = map[string]string{"G": "GET", "P": "POST", "D": "DELETE"}
+var methods = map[string]string{"G": "GET", "H": "HEAD", "O": "OPTIONS", "T": "TRACE", "P": "POST", "D": "DELETE", "U": "PUT", "A": "PATCH"}
 
 func keyValue(k string) string {
 	switch k {
@@ -133,6 +136,8 @@ func keyValue(k string) string {
 		return ""
 	case "!":
 		return "too-short"
+	case "?":
+		return "00000000-0000-0000-0000-000000000000x" // 37 characters
 	}
 	return "00000000-0000-0000-0000-00000000000" + k // 36 characters
 }
@@ -153,8 +158,11 @@ type store struct {
 }
 
 func (st *store) Get(key string) ([]byte, error) {
-	if st.s.Park('G') == 1 {
+	switch st.s.Park('G') {
+	case 1:
 		return nil, errInjected
+	case 2:
+		return []byte{0xc1}, nil // never a valid msgpack response
 	}
 	st.mu.Lock()
 	defer st.mu.Unlock()
@@ -205,7 +213,9 @@ func (l *locker) Lock(key string) error {
 }
 
 func (l *locker) Unlock(key string) error {
-	l.s.Park('U')
+	if l.s.Park('U') == 1 {
+		return errInjected // failed without releasing
+	}
 	return l.real.Unlock(key)
 }
 
@@ -231,6 +241,8 @@ func keepList(k string) []string {
 		return []string{"X-M", "Set-Cookie"}
 	case "am":
 		return []string{"x-a", "X-M", "X-C", "Set-Cookie"}
+	case "e":
+		return []string{}
 	}
 	return nil
 }
@@ -283,7 +295,11 @@ func newCase(c cfgIn, th []thrIn) *caseRun {
 		ic.Lock = &locker{s: cr.s, real: idempotency.NewMemoryLock()}
 	}
 	app := fiber.New(fiber.Config{EnableSplittingOnParsers: c.split})
-	app.Use(idempotency.New(ic))
+	if c.st == "M" && c.life == 1800 && c.keep == "all" {
+		app.Use(idempotency.New()) // ConfigDefault: 30 min, keep all
+	} else {
+		app.Use(idempotency.New(ic))
+	}
 	app.Use(func(c fiber.Ctx) error {
 		t := cr.s.Tid()
 		cr.s.Park('H')
@@ -373,10 +389,15 @@ func (cr *caseRun) do(a string) bool {
 		if n >= len(cr.th) {
 			return false
 		}
-		if p := cr.s.PosOf(n); p != 'G' && p != 'S' && p != 'L' {
+		if p := cr.s.PosOf(n); p != 'G' && p != 'S' && p != 'L' && p != 'U' {
 			return false
 		}
 		cr.s.Release(n, 1)
+	case 'c':
+		if n >= len(cr.th) || cr.s.PosOf(n) != 'G' {
+			return false
+		}
+		cr.s.Release(n, 2)
 	case 't':
 		if n > 100000 {
 			return false
@@ -436,7 +457,7 @@ func (cr *caseRun) finish(w *gen.Writer, id string) {
 // ---- generation -----------------------------------------------------------------------------------
 
 func genCfg(r *gen.Rand) cfgIn {
-	c := cfgIn{st: "X", life: gen.Pick(r, []int{2, 3, 5, 10, 1800}), keep: gen.Pick(r, []string{"all", "all", "a", "m", "am"})}
+	c := cfgIn{st: "X", life: gen.Pick(r, []int{2, 3, 5, 10, 1800}), keep: gen.Pick(r, []string{"all", "all", "a", "m", "am", "am", "e"})}
 	if r.Chance(1, 6) {
 		c.st = "M"
 	}
@@ -448,17 +469,19 @@ func genThread(r *gen.Rand) thrIn {
 	t := thrIn{method: "P", key: "a", status: gen.Pick(r, []int{200, 200, 201, 204, 404, 500}), body: r.Intn(2), hdrs: r.Intn(5)}
 	switch r.Intn(12) {
 	case 0:
-		t.method = "G"
-	case 1:
-		t.method = "D"
+		t.method = gen.Pick(r, []string{"G", "G", "H", "O", "T"})
+	case 1, 2:
+		t.method = gen.Pick(r, []string{"D", "U", "A"})
 	}
 	switch r.Intn(12) {
 	case 0:
 		t.key = "-"
 	case 1:
-		t.key = "!"
-	case 2, 3, 4:
+		t.key = gen.Pick(r, []string{"!", "?"})
+	case 2, 3:
 		t.key = "b"
+	case 4:
+		t.key = "A" // differs from key a only in the case of one letter
 	}
 	t.err = r.Chance(1, 8)
 	return t
@@ -492,17 +515,25 @@ func runGenerated(w *gen.Writer, id string, r *gen.Rand) {
 		}
 		x := r.Intn(20)
 		switch {
-		case x < 1:
-			cr.do("t" + strconv.Itoa(gen.Pick(r, []int{1, 1, c.life - 1, c.life, c.life + 1})))
-		case (x < 8 || len(pk) == 0) && next < n && live < 4:
+		case x < 2:
+			cr.do("t" + strconv.Itoa(gen.Pick(r, []int{1, 1, c.life - 1, c.life - 1, c.life, c.life, c.life + 1})))
+		case (x < 9 || len(pk) == 0) && next < n && live < 4:
 			cr.do("s" + strconv.Itoa(next))
 			next++
 		case len(pk) > 0:
 			t := gen.Pick(r, pk)
 			pos := p[t]
 			if (pos == 'G' || pos == 'L' || pos == 'S') && r.Intn(20) < faultP {
+				if pos == 'G' && r.Chance(1, 3) {
+					cr.do("c" + strconv.Itoa(t))
+					w.Count("corrupt-G")
+				} else {
+					cr.do("f" + strconv.Itoa(t))
+					w.Count("fault-" + string(pos))
+				}
+			} else if pos == 'U' && faultP > 0 && r.Intn(40) < faultP {
 				cr.do("f" + strconv.Itoa(t))
-				w.Count("fault-" + string(pos))
+				w.Count("fault-U")
 			} else {
 				cr.do("r" + strconv.Itoa(t))
 			}
